@@ -43,7 +43,12 @@ def build(targets, variant="std", opt=None, jobs=None):
     paths = [os.path.join(BUILD, vdir, "h", t) for t in targets]
     cmd += ["lib"] + paths
     t0 = time.time()
-    p = subprocess.run(cmd, stdout=subprocess.PIPE, stderr=subprocess.STDOUT, text=True)
+    # one make at a time per build directory (several checks may run concurrently)
+    import fcntl
+    os.makedirs(os.path.join(BUILD, vdir), exist_ok=True)
+    with open(os.path.join(BUILD, vdir, ".lock"), "w") as lk:
+        fcntl.flock(lk, fcntl.LOCK_EX)
+        p = subprocess.run(cmd, stdout=subprocess.PIPE, stderr=subprocess.STDOUT, text=True)
     if p.returncode != 0:
         tail = "\n".join(p.stdout.splitlines()[-60:])
         raise MachineryError("harness build failed (%s):\n%s" % (" ".join(targets), tail))
